@@ -123,13 +123,20 @@ def run(prop, tier):
         scns.append(make_conc(rng, k, pack, nt, rp, rng.choice([0, 0, 20, 200]), False))
     events, n_ok = [], 0
     nontrivial = set()
-    for i in range(0, len(scns), 60):
-        chunk = scns[i:i + 60]
-        runs = C.run_scenarios(binary, chunk, "C07_b%d" % i, timeout=600)
+    hangs = 0
+    for i in range(0, len(scns), 30):
+        if hangs >= 3:
+            C.log("[%s] %d runs did not terminate: stopping early, the verdict is reached" % (prop, hangs))
+            break
+        chunk = scns[i:i + 30]
+        runs = C.run_scenarios(binary, chunk, "C07_b%d" % i, timeout=120, max_failures=3)
         for s in chunk:
             r = runs.get(s["id"], {"events": [], "status": "crash:notrun"})
             sid = s["id"]
+            if r["status"] == "skipped":
+                continue
             if r["status"] != "ok":
+                hangs += (r["status"] == "timeout")
                 site = next((e.get("site", "") for e in reversed(r["events"]) if e["ev"] == "PanicSite"), "")
                 rep.violation("%s %s pack=%s threads=%d site=%s" % (prop, "hang (no termination within the bound)" if r["status"] == "timeout" else r["status"],
                                                                    s["pack"], s["nthreads"], site), {"scn": dict(s, threads="%d threads" % s["nthreads"]), "last": r["events"][-5:]})
@@ -150,7 +157,7 @@ def run(prop, tier):
             nontrivial.add((s["pack"], s["nthreads"], s["seed"]))
             if s["trace_hooks"] and len(rep.cov["samples"]) < 2:
                 rep.cov["samples"].append({"pack": s["pack"], "threads": s["nthreads"], "delay_max_us": s["delay_max_us"], "trace": evs[:14]})
-        C.log("[%s] %d/%d runs %.0fs" % (prop, min(i + 60, len(scns)), len(scns), time.time() - rep.t0))
+        C.log("[%s] %d/%d runs %.0fs" % (prop, min(i + 30, len(scns)), len(scns), time.time() - rep.t0))
     import p_entries as E
     E.validate_all(rep, prop, [dict(id=s["id"], pack=s["pack"], nthreads=s["nthreads"], seed=s["seed"]) for s in scns], events, "DecoderTrace", TRACE_CFG,
                    sigf=lambda s: "pack=%s threads=%d" % (s["pack"], s["nthreads"]))
